@@ -36,6 +36,20 @@ pub fn chk_dir_roundtrip(es: &[Entry], all_codecs: bool) -> Result<(), String> {
                 return Err(format!("decompressed {} bytes differ from the independent encoder", comp_tok(c)));
             }
         }
+        // the specification's bytes as another writer's encoder would compress them (other levels, window sizes, framing)
+        if c != Compression::None {
+            let v = spec.iter().fold(es.len() as u64, |a, b| a.wrapping_mul(131).wrapping_add(u64::from(*b)));
+            for k in 0..2u64 {
+                let foreign = crate::spec::codec_compress_variety(crate::ops2::comp_code(c) as u8, &spec, v.wrapping_add(k.wrapping_mul(7919)));
+                for asy_r in [false, true] {
+                    let back = dir_dec(asy_r, c, &foreign)
+                        .map_err(|e| format!("decode of the specification's bytes compressed by another {} encoder failed: {e} (async={asy_r})", comp_tok(c)))?;
+                    if back != es {
+                        return Err(format!("the specification's bytes compressed by another {} encoder decode to other entries (async={asy_r})", comp_tok(c)));
+                    }
+                }
+            }
+        }
     }
     Ok(())
 }
